@@ -66,7 +66,10 @@ def gen_plan(rng, opts=None):
         for _ in range(rng.choice([1, 1, 2])):
             k = rng.choice(["write_eio", "write_enospc", "open_missing", "read_eio", "shm_enomem"])
             faults.append([k, rng.randint(1, 5)])
-    return dict(cap=cap, keys=keys, ops=ops, faults=faults, line=rng.random() < 0.7, reuse=o["reuse"])
+    devshm = None
+    if rng.random() < 0.1 and cap >= 4:
+        devshm = rng.randint(max(2, cap // 2), cap - 1)      # configured capacity exceeds what /dev/shm reports
+    return dict(cap=cap, keys=keys, ops=ops, faults=faults, line=rng.random() < 0.7, reuse=o["reuse"], devshm=devshm)
 
 
 def _payload(key, ci, oi, size):
@@ -299,7 +302,13 @@ def run(plan, ch, want_log=False):
         K.tracelog = []
     fakes.new_world(K, dict(lat=(1000, 2000)))
     cap = plan["cap"]
-    mon = Mon(K, cap)
+    if plan.get("devshm"):
+        K.cfg["devshm"] = plan["devshm"]
+        cap_eff = min(cap, plan["devshm"])        # "if more capacity is configured than available, it is trimmed"
+        K.probe("capacity_trimmed_to_available")
+    else:
+        cap_eff = cap
+    mon = Mon(K, cap_eff)
     if plan.get("line"):
         K.cfg["pool_trace_fn"] = _line_tracer
     ncreate = {"n": 0}
@@ -355,8 +364,10 @@ def run(plan, ch, want_log=False):
     never_purged = set(plan["keys"]) - purged_in_plan
     closed_ok = set()
 
+    cap = cap_eff
+
     def srv():
-        server.entrypoint(PORT, cap, None, "s")
+        server.entrypoint(PORT, plan["cap"], None, "s")
 
     def api_call(fn, *a, **kw):
         """Any exception leaving the client API other than the documented ones is a violation."""
@@ -503,7 +514,8 @@ def run(plan, ch, want_log=False):
             K.probe("dataset_stuck_in_transient_status")
         api_call(client.shutdown)
 
-    SimProc(K, "shm", root).start(srv)
+    shm_proc = SimProc(K, "shm", root)
+    shm_proc.main = K.spawn("shm", srv, shm_proc, trace_fn=_line_tracer if plan.get("line") else None)
     for ci, ops in enumerate(plan["ops"]):
         SimProc(K, f"c{ci}", root).start(lambda ci=ci, ops=ops: cli(ci, ops))
     try:
